@@ -156,6 +156,10 @@ func AllocCells() int { return 0 }
 // It has no effect natively. (intercepted)
 func Replace(fn string, f interface{}) {}
 
+// Tabulate tells the engine that fn is a pure function of one small integer: it is evaluated concretely for
+// every argument value once and calls with a symbolic argument become a table lookup. (intercepted)
+func Tabulate(fn string) {}
+
 func Bound(what, value string) {}
 func Assumption(text string)   {}
 func Stub(text string)         {}
